@@ -17,3 +17,8 @@ reg('C06', 'exploration', 'X (exhaustive input enumerator)', 'bounded exhaustive
     'Every ordered pair of integer types is driven through the real conversion code with all 8/16-bit source values (all 2^32 values of 32-bit sources in the thorough tier) and a boundary lattice for 64-bit sources, as scalars, as arrays and as stores/loads of sandbox cells under three foreign ABIs; each result is compared with the exact mathematical value or a required abort.',
     'Trusts the compiler and the 128-bit reference predicate; 64-bit sources are boundary-complete only; X->bool (X != bool) excluded by scope decision (DESIGN.md C06).',
     'DESIGN.md section 3, C06')
+
+reg('C15', 'model_checking', 'H (explicit-state / history explorer)', 'explicit-state BFS on the real token table + history BFS on owner objects, lock-step reference model',
+    'The complete reachable state space (used-set x cursor) of the real app_pointer_map<uint8_t> is explored for every limit 1..12 (1..15 thorough) with every get/remove/lookup transition checked against a reference map; full-minus-two-holes families cover limits up to 254 and 32/64-bit tokens; owner objects (move, overwrite, destroy, unregister, store/load) are explored by BFS over histories on an 8-bit mbox sandbox from seeds that make exhaustion reachable.',
+    'State key drops pointer values (table never branches on them). Complete state spaces only up to limit 12/15; larger limits by structured families. Histories end at the first abort.',
+    'DESIGN.md section 3, C15')
